@@ -374,7 +374,7 @@ def _bounded_inventory(tier, seed):
     n_lookup, bad = _lookup_names(fails)
     evals += n_lookup
     gen = InvGen(rng, bad)
-    runs = 120 if tier == "quick" else 1500
+    runs = 300 if tier == "quick" else 2000
     clause_node = "parsing the serialisation of an inventory node yields an equal node"
     clause_model = "parsing the serialisation of an inventory model yields an equal model (same nodes, every field equal)"
 
@@ -386,7 +386,9 @@ def _bounded_inventory(tier, seed):
         if back is None or type(back) is not type(want):
             fails.add(f"inventory/{flavor}-{level}/{type(node).__name__}:type", clause_node, describe(node), f"parsed to {_short(back, 200)}")
             return False
-        d = _sdiff(want, back, skip=_skip_for(node, flavor))
+        # a field passes if it equals what was put in or the canonical form of it (a format carrying MORE than required is fine)
+        full = set(_sdiff(node, back, skip=_skip_for(node, flavor)))
+        d = [p for p in _sdiff(want, back, skip=_skip_for(node, flavor)) if p in full]
         for path in d:
             fails.add(f"inventory/{flavor}-{level}/{type(node).__name__}{_field_key(path)}", clause_node, describe(node),
                       f"field {path}: put in {_short(_get(want, path), 200)}, got back {_short(_get(back, path), 200)}")
@@ -465,7 +467,7 @@ def _bounded_inventory(tier, seed):
                           "all nodes compare equal field by field but InventoryModel.__eq__ says the models differ")
 
     # ---- wearables (line format): name line, permissions, sale info, type, parameters, textures
-    wruns = 30 if tier == "quick" else 400
+    wruns = 80 if tier == "quick" else 600
     for _ in range(wruns):
         evals += 1
         name = gen.text(False).strip() or "Shape"
@@ -481,7 +483,8 @@ def _bounded_inventory(tier, seed):
             fails.add(f"wearable/raises-{type(ex).__name__}", "parsing the serialisation of a wearable yields an equal wearable",
                       {"wearable": _short(w, 900)}, f"raised {type(ex).__name__}: {ex}")
             continue
-        for path in _sdiff(want, back):
+        full = set(_sdiff(w, back))
+        for path in [p for p in _sdiff(want, back) if p in full]:
             fails.add(f"wearable/{_field_key(path)}", "parsing the serialisation of a wearable yields an equal wearable",
                       {"wearable": _short(w, 900)}, f"field {path} differs: got back {_short(back, 300)}")
 
@@ -581,7 +584,7 @@ def _bounded_animations(tier, seed):
     gen = AnimGen(rng)
     fails = _Fails()
     evals, seen, samples = 0, set(), []
-    runs = 150 if tier == "quick" else 2500
+    runs = 400 if tier == "quick" else 3000
     clause = "parsing the serialisation of an animation yields an equal animation (quantised members: equal on the decoded image)"
     for run in range(runs):
         version = (0, 1) if run % 2 == 0 else (1, 0)
@@ -741,7 +744,7 @@ def _bounded_meshes(tier, seed):
     gen = MeshGen(rng)
     fails = _Fails()
     evals, seen, samples = 0, set(), []
-    runs = 80 if tier == "quick" else 1200
+    runs = 240 if tier == "quick" else 1500
     clause = "parsing the serialisation of a mesh asset yields an equal asset (quantised members: equal on the decoded image)"
     tol = dict(_MESH_TOL, **_MESH_EXACT)
     influences = set()
@@ -776,18 +779,23 @@ def _bounded_meshes(tier, seed):
         if len(samples) < 2:
             samples.append({"bytes": len(b0), "segments": {k: (len(v) if isinstance(v, list) else "map") for k, v in m.segments.items()}})
         # what was put in comes back: structure exactly (every list length, every key), quantised floats within one step
-        for path in _sdiff(m.segments, m1.segments, tol=tol):
-            fails.add(f"mesh/segments/{_mesh_key(path)}", clause, inp,
-                      f"segment member {path} differs after one serialise/parse")
-        for path in _sdiff(m.header, m1.header, skip=("offset", "size")):
-            fails.add(f"mesh/header/{_mesh_key(path)}", clause, inp, f"header member {path} differs: {_short(m1.header, 400)}")
+        d1 = [("", p) for p in _sdiff(m.segments, m1.segments, tol=tol)] + \
+             [("header/", p) for p in _sdiff(m.header, m1.header, skip=("offset", "size"))]
+        for pre, path in d1:
+            fails.add(f"mesh/roundtrip/{pre}{_mesh_key(path)}", clause, inp,
+                      f"member {pre}{path} differs after one serialise/parse: put in {_short(_dig(m.header if pre else m.segments, path), 300)}, "
+                      f"got back {_short(_dig(m1.header if pre else m1.segments, path), 300)}")
+        if d1:
+            continue        # the follow-up checks would only repeat the same difference
         # the parsed asset is a fixed point
         d2 = _sdiff(m1.segments, m2.segments) + _sdiff(m1.header, m2.header)
         if not d2 and not (m1 == m2):
             d2 = [":eq"]
         for path in d2:
             fails.add(f"mesh/image/{_mesh_key(path)}", clause, inp, f"the parsed asset does not survive a second serialise/parse at {path}")
-        if bytes(b1) != bytes(b0) and not d2:
+        if d2:
+            continue
+        if bytes(b1) != bytes(b0):
             fails.add("mesh/image/bytes", clause, inp, "serialising the parsed asset gives different bytes than the first serialisation")
         # raw segment route: an asset parsed with raw segments kept can be rebuilt from the raw bytes alone
         if run % 4 == 0:
@@ -816,10 +824,23 @@ def _bounded_meshes(tier, seed):
 
 
 def _mesh_key(path):
-    parts = [p.split(":")[0] for p in _strip_idx(path).strip(".").split(".") if p]
+    """failure class = the member that differs, whichever segment / material / vertex it sits in: '.high_lod[1].Weights:len' -> 'Weights:len'"""
     tail = path.rsplit(":", 1)[1] if ":" in path else ""
-    keep = [p for p in parts if not p.isdigit()][:3]
-    return "/".join(keep) + (":" + tail if tail else "")
+    parts = [p.split(":")[0] for p in _strip_idx(path).strip(".").split(".") if p]
+    if len(parts) > 1:
+        parts = parts[1:]
+    return "/".join(parts[:2]) + (":" + tail if tail else "")
+
+
+def _dig(obj, path):
+    import re
+    cur = obj
+    for tok in re.findall(r"\.([^.\[\]:]+)|\[(\d+)\]", path):
+        try:
+            cur = cur[tok[0]] if tok[0] else cur[int(tok[1])]
+        except Exception:  # noqa
+            break
+    return cur
 
 
 # ============================================================================================================ transfers
@@ -1104,7 +1125,7 @@ def _bounded_transfers(loop, tier, seed):
         if thorough:
             max_extra = {1: 3, 2: 3, 3: 3, 4: 3, 5: 2}[n]
         else:
-            max_extra = {1: 3, 2: 3, 3: 2, 4: 1, 5: 1}[n]
+            max_extra = {1: 3, 2: 3, 3: 3, 4: 2, 5: 1}[n]
         i = 0
         for extra in range(0, max_extra + 1):
             for seq in _surjective(n, n + extra):
@@ -1279,7 +1300,7 @@ def _bounded_transfers(loop, tier, seed):
                     "(chunks of 1000, DONE status on the last) against TransferManager, directly and through request() + pump. distinct = "
                     "distinct (receiver, payload length, arrival sequence)",
             "bounded": True, "bounds": {"max_chunks": MAXN, "xfer_chunk": 1150, "transfer_chunk": CH,
-                                        "exhaustive_extra_arrivals": "quick: 3,3,2,1,1 / thorough: 3,3,3,3,2 for 1..5 chunks (xfer)"},
+                                        "exhaustive_extra_arrivals": "quick: 3,3,3,2,1 / thorough: 3,3,3,3,2 for 1..5 chunks (xfer)"},
             "samples": samples, "failures": fails.items}
 
 
